@@ -56,3 +56,36 @@ OVERLAYS = [
     {'name': 'keep: tie test reordered', 'kind': 'keep',
      'edits': [(SEQUTILS, "if len(base_probs) == 0 or (len(base_probs) >= 2 and base_probs[0][1] == base_probs[1][1]):", "if (len(base_probs) > 1 and base_probs[1][1] == base_probs[0][1]) or len(base_probs) < 1:")]},
 ]
+
+AB_OLD = """        return find_ranges(
+            sorted(list(set(
+                (ref_pos
+                 for read in self.iter_reads()
+                 for q_pos, ref_pos in read.get_aligned_pairs(matches_only=True, with_seq=False)))))
+        )
+"""
+
+
+def _ab_merge(new_end):
+    return f"""        blocks = sorted(
+            (start, end - 1)
+            for read in self.iter_reads()
+            for start, end in read.get_blocks())
+        merged = []
+        for start, end in blocks:
+            if len(merged) and start <= merged[-1][1] + 1:
+                merged[-1] = (merged[-1][0], {new_end})
+            else:
+                merged.append((start, end))
+        return merged
+"""
+
+
+OVERLAYS += [
+    {'name': 'keep: aligned blocks by merging the pysam blocks of the reads', 'kind': 'keep', 'edits': [(MOLECULE, AB_OLD, _ab_merge('max(merged[-1][1], end)'))]},
+    {'name': 'block merge takes the end of the incoming block (nested block truncates)', 'kind': 'break', 'rules': ['C15-R6'], 'edits': [(MOLECULE, AB_OLD, _ab_merge('end'))]},
+    {'name': 'block merge joins blocks only when they overlap (adjacent blocks stay split)', 'kind': 'break', 'rules': ['C15-R6'],
+     'edits': [(MOLECULE, AB_OLD, _ab_merge('max(merged[-1][1], end)').replace('start <= merged[-1][1] + 1', 'start <= merged[-1][1] - 1'))]},
+    {'name': 'deduplicate_majority reads the cached base_confidences', 'kind': 'break', 'rules': ['C15-R7'],
+     'edits': [(MOLECULE, "        obs = self.get_base_confidence_dict()\n\n        reads = list(self.get_dedup_reads(", "        obs = self.base_confidences\n\n        reads = list(self.get_dedup_reads(")]},
+]
